@@ -7,6 +7,7 @@ import Hub.SDK.Paginate
 import Hub.Model.Query
 import Hub.Model.Genesis
 import Hub.Model.Jump
+import Hub.SDK.MeterSpec
 import Hub.Generated.Proto
 import Hub.SDK.ProtoJson
 /-
@@ -258,10 +259,33 @@ def probeLine (line : String) : String :=
   | kind :: rest =>
     let f := parseFields rest
     match kind with
-    | "afb" => mres toString (Hub.Generated.AmountForBytes (fint f "p") (fint f "b"))
-    | "prop" => mres (fun (c : Coin) => toString c.amount) (Hub.Generated.GetProportionOfCoin ⟨"udvpn", fint f "a"⟩ (fint f "s"))
-    | "ceilto" => mres (fun (b : Hub.Generated.Bandwidth) => toString b.Upload ++ " " ++ toString b.Download)
-        (Hub.Generated.Bandwidth.CeilTo ⟨fint f "up", fint f "down"⟩ (fint f "pre"))
+    -- C16: inside the domain of the exactness theorems (Props/C16 afb_exact_fits, proportion_exact, ceilTo_exact) the
+    -- answer is the SPECIFICATION; the regenerated definition, which mirrors the current source, is shown when it differs
+    | "afb" =>
+      let p := fint f "p"; let b := fint f "b"
+      let g := mres toString (Hub.Generated.AmountForBytes p b)
+      let B256 : Nat := 2 ^ 256
+      if 0 ≤ p ∧ 0 ≤ b ∧ p.toNat / 10 ^ 9 * b.toNat < B256 ∧ p.toNat % 10 ^ 9 * b.toNat + 10 ^ 9 < B256 ∧
+          Hub.Props.C16.chargeSpec p.toNat b.toNat < B256 then
+        let sp := "ok " ++ toString (Hub.Props.C16.chargeSpec p.toNat b.toNat)
+        if g = sp then g else sp ++ " ;; regenerated=" ++ g.replace " " "_"
+      else g
+    | "prop" =>
+      let a := fint f "a"; let sh := fint f "s"
+      let g := mres (fun (c : Coin) => toString c.amount) (Hub.Generated.GetProportionOfCoin ⟨"udvpn", a⟩ sh)
+      if 0 ≤ a ∧ a.toNat < 2 ^ 255 ∧ 0 ≤ sh ∧ sh.toNat ≤ 10 ^ 18 then
+        let sp := "ok " ++ toString (Hub.Props.C16.shareSpec a.toNat sh.toNat)
+        if g = sp then g else sp ++ " ;; regenerated=" ++ g.replace " " "_"
+      else g
+    | "ceilto" =>
+      let up := fint f "up"; let down := fint f "down"; let pre := fint f "pre"
+      let g := mres (fun (b : Hub.Generated.Bandwidth) => toString b.Upload ++ " " ++ toString b.Download)
+        (Hub.Generated.Bandwidth.CeilTo ⟨up, down⟩ pre)
+      let B256 : Nat := 2 ^ 256
+      if 0 < pre ∧ 0 ≤ up ∧ 0 ≤ down ∧ up.toNat + pre.toNat < B256 ∧ down.toNat + pre.toNat < B256 then
+        let sp := "ok " ++ toString (Hub.Props.C16.ceilToSpec up.toNat pre.toNat) ++ " " ++ toString (Hub.Props.C16.ceilToSpec down.toNat pre.toNat)
+        if g = sp then g else sp ++ " ;; regenerated=" ++ g.replace " " "_"
+      else g
     | "decmul" => mres toString (Dec.mul (fint f "a") (fint f "b"))
     | "decround" =>
       let a := fint f "a"
